@@ -1,18 +1,23 @@
 package main
 
-// golite: a translator from the Go subset used by the state-changing methods of *Device (device.go, events.go) to Lean 4
-// functions over `Hidi.GoLite.GSt` (lean/Hidi/GoLite.lean).  The output, `Hidi/Gen/Bodies.lean`, is regenerated on every
-// run; `HidiProofs/Props/Bodies.lean` proves that each generated function equals the hand-written model function it
-// corresponds to, so a change to one of these Go bodies changes the generated definition and the proof obligation.
+// golite: a translator from the Go subset used by the event path of *Device (device.go, events.go) to Lean 4 functions
+// over `Hidi.GoLite.GSt` (lean/Hidi/GoLite.lean).  The output, `Hidi/Gen/Bodies.lean`, is regenerated on every run;
+// `HidiProofs/Bodies*.lean` and `HidiProofs/Props/GenTie*.lean` prove that each generated function equals the hand-written
+// model function it corresponds to, so a change to one of these Go bodies changes the generated definition and the proof
+// obligation.
 //
-// What is translated: statements (assignment, ++/--, if/else, switch with and without tag, return, counted for-loops with
-// constant bounds, `break` out of a switch at the end of an if body), integer / boolean expressions with Go's typed
-// wrap-around (uint8 arithmetic is reduced mod 256 after every operation), conversions int()/uint8(), calls of other
-// translated methods.  What is a primitive (mapped by a fixed table to a function of GoLite.lean, i.e. modelled, not
-// translated): map reads / writes / deletes of the Device trackers, the configuration look-ups, channel sends, the MIDI
-// event constructors.  Log-only blocks (`if !d.noLogs { log.… }`) and mutex calls are dropped (locking is C16's subject).
-// A construct outside the subset makes the translation of that function fail; no definition is emitted for it (the
-// reason is left in a comment), and the theorems about it no longer compile.
+// What is translated: statements (assignment, ++/--, if/else with block scoping and shadowing, switch with and without
+// tag, `break` out of a case — also from nested ifs, through a flag —, return, counted for-loops with constant bounds
+// and `range` over a tracker map as folds, the `range` over the exit sequence), integer / boolean expressions with Go's
+// typed wrap-around (uint8 arithmetic is reduced mod 256 after every operation), float64 expressions (one correctly
+// rounded operation of Hidi/Float.lean per Go operation; literals are rnd53 of their decimal value), conversions, calls
+// of other translated methods (also as `if` conditions).  Long methods (glSegmented) are emitted as a chain of segment
+// definitions.  What is a primitive (mapped by a fixed table to a function of GoLite.lean, i.e. modelled, not
+// translated): map reads / writes / deletes of the Device trackers, the configuration look-ups, AbsInfos, channel
+// sends, the MIDI event constructors and accessors, fmt.Sprintf of the analog tracker identifiers, Multinote().
+// Log-only blocks and mutex calls are dropped (locking is C16's subject).  A construct outside the subset makes the
+// translation of that function fail; no definition is emitted for it (the reason is left in a comment), and the
+// theorems about it no longer compile.
 
 import (
 	"fmt"
@@ -1763,6 +1768,13 @@ func genBodies() {
 		emit("%s\n", text)
 		okNames = append(okNames, it.name)
 	}
+	if txt, err := c.translateNewDevice(dev); err != "" {
+		emit("-- NewDevice: not translated: %s\n\n", strings.ReplaceAll(err, "\n", " "))
+		failed = append(failed, "NewDevice")
+	} else {
+		emit("%s\n", txt)
+		okNames = append(okNames, "NewDevice")
+	}
 	if txt, err := c.translateCleanup(evs); err != "" {
 		emit("-- ProcessEvents (clean-up): not translated: %s\n\n", strings.ReplaceAll(err, "\n", " "))
 		failed = append(failed, "ProcessEvents.cleanup")
@@ -2253,4 +2265,193 @@ func (c *glCtx) translateCleanup(evs *ast.File) (text string, err string) {
 	c.block(o, fd.Body.List[lock+1:unlock], 0)
 	o.line("return d")
 	return fmt.Sprintf("def cleanupBody (d0 : GSt) : GSt := Id.run do\n%s", o.b.String()), ""
+}
+
+// translateNewDevice: the initial state built by NewDevice.  The scalar fields of the `Device{…}` literal are translated
+// (defaults from the configuration, with their conversions); every map-valued field must be initialised to an empty map —
+// `make(…)` directly or a local that is built from `make(…)` and filled only with zero values / empty maps — which is the
+// empty tracker of GSt (a missing counter reads as 0).
+func (c *glCtx) translateNewDevice(dev *ast.File) (text string, err string) {
+	defer func() {
+		if r := recover(); r != nil {
+			if f, ok := r.(glFail); ok {
+				err = f.msg
+				return
+			}
+			panic(r)
+		}
+	}()
+	fd := findFunc(dev, "NewDevice")
+	if fd == nil {
+		glfail("not found")
+	}
+	cfgName := ""
+	for _, p := range fd.Type.Params.List {
+		if types.ExprString(p.Type) == "config.DeviceConfig" && len(p.Names) == 1 {
+			cfgName = p.Names[0].Name
+		}
+	}
+	if cfgName == "" {
+		glfail("configuration parameter")
+	}
+	// locals that are empty maps: declared from make(…) and only ever assigned zero values / empty maps / `true` set marks
+	emptyMaps := map[string]bool{}
+	ast.Inspect(fd.Body, func(n ast.Node) bool {
+		switch x := n.(type) {
+		case *ast.AssignStmt:
+			if len(x.Lhs) == 1 && len(x.Rhs) == 1 {
+				if id, ok := x.Lhs[0].(*ast.Ident); ok && x.Tok == token.DEFINE {
+					if call, ok := x.Rhs[0].(*ast.CallExpr); ok {
+						if f, ok := call.Fun.(*ast.Ident); ok && f.Name == "make" && strings.HasPrefix(types.ExprString(call.Args[0]), "map[") {
+							emptyMaps[id.Name] = true
+						}
+					}
+				}
+			}
+		case *ast.ValueSpec:
+			if len(x.Names) == 1 && len(x.Values) == 1 {
+				if call, ok := x.Values[0].(*ast.CallExpr); ok {
+					if f, ok := call.Fun.(*ast.Ident); ok && f.Name == "make" && strings.HasPrefix(types.ExprString(call.Args[0]), "map[") {
+						emptyMaps[x.Names[0].Name] = true
+					}
+				}
+			}
+		}
+		return true
+	})
+	// what is stored into those maps
+	ast.Inspect(fd.Body, func(n ast.Node) bool {
+		as, ok := n.(*ast.AssignStmt)
+		if !ok || len(as.Lhs) != 1 || len(as.Rhs) != 1 {
+			return true
+		}
+		ix, ok := as.Lhs[0].(*ast.IndexExpr)
+		if !ok {
+			return true
+		}
+		base, ok := ix.X.(*ast.Ident)
+		if !ok || !emptyMaps[base.Name] {
+			return true
+		}
+		v := types.ExprString(as.Rhs[0])
+		if id, ok := as.Rhs[0].(*ast.Ident); ok && emptyMaps[id.Name] {
+			return true
+		}
+		if v == "0" || strings.HasPrefix(v, "make(map[") {
+			return true
+		}
+		if base.Name == "subhandlers" && v == "true" {
+			return true // a set of names used only to size lastAnalogValue
+		}
+		glfail("%s[…] = %s: a tracker does not start empty", base.Name, v)
+		return true
+	})
+	var lit *ast.CompositeLit
+	ast.Inspect(fd.Body, func(n ast.Node) bool {
+		if cl, ok := n.(*ast.CompositeLit); ok && types.ExprString(cl.Type) == "Device" {
+			if lit != nil {
+				glfail("two Device literals")
+			}
+			lit = cl
+		}
+		return true
+	})
+	if lit == nil {
+		glfail("Device literal")
+	}
+	defaults := map[string]string{"Octave": "cfg.defOct", "Semitone": "cfg.defSemi", "Channel": "cfg.defCh", "Mapping": "(cfg.defMap : Int)", "Velocity": "cfg.vel"}
+	var ex func(e ast.Expr) (string, string)
+	ex = func(e ast.Expr) (string, string) {
+		switch x := e.(type) {
+		case *ast.ParenExpr:
+			return ex(x.X)
+		case *ast.BasicLit:
+			if x.Kind == token.INT {
+				return "(" + x.Value + " : Int)", tUntyped
+			}
+		case *ast.Ident:
+			if x.Name == "true" || x.Name == "false" {
+				return x.Name, tBool
+			}
+		case *ast.SelectorExpr:
+			if isSel(x.X, cfgName, "Config", "Defaults") {
+				if d, ok := defaults[x.Sel.Name]; ok {
+					return d, tInt
+				}
+			}
+		case *ast.BinaryExpr:
+			l, tl := ex(x.X)
+			r, tr := ex(x.Y)
+			t := c.unify(tl, tr)
+			if (x.Op == token.ADD || x.Op == token.SUB) && (t == tInt || t == tU8) {
+				return c.wrap(t, l+" "+x.Op.String()+" "+r), t
+			}
+		case *ast.CallExpr:
+			if id, ok := x.Fun.(*ast.Ident); ok && len(x.Args) == 1 {
+				s, t := ex(x.Args[0])
+				if t == tInt || t == tU8 || t == tUntyped {
+					switch id.Name {
+					case "uint8", "byte":
+						return c.wrap(tU8, s), tU8
+					case "int":
+						return c.wrap(tInt, s), tInt
+					}
+				}
+			}
+		}
+		glfail("initial value %s", types.ExprString(e))
+		return "", ""
+	}
+	want := map[string][2]string{"octave": {"octave", tInt}, "semitone": {"semitone", tInt}, "channel": {"channel", tU8}, "velocity": {"velocity", tU8},
+		"mapping": {"mapping", tInt}, "ccLearning": {"learning", tBool}}
+	vals := map[string]string{}
+	for _, el := range lit.Elts {
+		kv, ok := el.(*ast.KeyValueExpr)
+		if !ok {
+			glfail("positional Device literal")
+		}
+		name := types.ExprString(kv.Key)
+		if w, ok := want[name]; ok {
+			s, t := ex(kv.Value)
+			if t == tUntyped {
+				t = w[1]
+				s = c.wrap(t, s)
+			}
+			if t != w[1] || c.fields[name] != map[string]string{tInt: "int", tU8: "uint8", tBool: "bool"}[w[1]] {
+				glfail("field %s: value of type %s, field type %s", name, t, c.fields[name])
+			}
+			vals[w[0]] = s
+			continue
+		}
+		switch name {
+		case "noteTracker", "keyTracker", "analogNoteTracker", "actionTracker", "ccZeroed", "activeNotesCounter", "externalNoteTracker", "lastAnalogValue":
+			v := kv.Value
+			if id, ok := v.(*ast.Ident); ok && emptyMaps[id.Name] {
+				continue
+			}
+			if call, ok := v.(*ast.CallExpr); ok {
+				if f, ok := call.Fun.(*ast.Ident); ok && f.Name == "make" && strings.HasPrefix(types.ExprString(call.Args[0]), "map[") {
+					continue
+				}
+			}
+			glfail("field %s is not initialised to an empty map: %s", name, types.ExprString(v))
+		case "multiNote":
+			if types.ExprString(kv.Value) != "[]int{}" {
+				glfail("multiNote initial value")
+			}
+		}
+	}
+	for _, w := range want {
+		if _, ok := vals[w[0]]; !ok {
+			// an omitted field is the zero value
+			if w[1] == tBool {
+				vals[w[0]] = "false"
+			} else {
+				vals[w[0]] = c.wrap(w[1], "(0 : Int)")
+			}
+		}
+	}
+	return fmt.Sprintf("def newDevice (cfg : Config) : GSt :=\n  { cfg := cfg, octave := %s, semitone := %s, channel := %s, velocity := %s,\n    mapping := %s, learning := %s,\n"+
+		"    multi := [], noteTr := [], anaTr := [], counter := [], actTr := [], keyTr := [], ext := [], lastAna := [], ccZeroed := [], out := [], dead := false }\n",
+		vals["octave"], vals["semitone"], vals["channel"], vals["velocity"], vals["mapping"], vals["learning"]), ""
 }
